@@ -20,14 +20,14 @@ ASSUMPTIONS = ['what must be where is derived from the Layout tables the code re
                'tables tile the global array exactly is checked in the same World (and under C02)']
 
 
-def gen(rng, tier, idx):
+def gen_base(rng, tier, idx, allow_underfull=False):
     ndim = rng.choice([2, 3, 3, 4, 4, 4])
     nprocs = cm.gen_nprocs(rng, ndim, maxP=16, wide=True) if tier == 'thorough' else cm.gen_nprocs(rng, ndim)
     nlay = rng.choice([1, 2, 2, 3, 3, 3, 4, 4, 5, 6])
     orders = cm.gen_layout_chain(rng, ndim, nlay, len(nprocs))
     shape = cm.gen_shape(rng, ndim, nprocs, orders)
     underfull = False
-    if rng.random() < 0.08:
+    if allow_underfull and rng.random() < 0.08:
         # an extent smaller than the number of processes it is spread over: some ranks own nothing
         # ("all global shapes": the handler accepts these, the drivers' process-grid search does not)
         cand = [(o[j], p) for o in orders for j, p in enumerate(nprocs) if p > 1]
@@ -229,3 +229,10 @@ def shrink(case):
                 c['shape'] = list(case['shape'])
                 c['shape'][d] = m
                 yield c
+
+
+
+def gen(rng, tier, idx):
+    case = gen_base(rng, tier, idx, allow_underfull=True)
+    cm.maybe_bystanders(rng, case['sched'], case['P'])
+    return case
